@@ -34,6 +34,9 @@ def sig(h, info):
 def describe(h, info):
     calls = " ".join("%s%s->%s%s" % (s["fn"], "(%d)" % s["m"] if s["fn"] == "Send" else "", s["ret"], "".join(" [L%d got %d]" % (d["l"], d["m"]) for d in s["dlv"]))
                      for s in h["steps"])
+    if h.get("note", "").startswith("nohook"):
+        return "the race detector reports a data race in midicatdrv during a batch of random call histories run without the verification hook (%s): %s" % (
+            h["note"], " / ".join(x.strip() for x in h.get("race", "").splitlines()[:14] if x.strip())[:900])
     return "%s history: %s | spec expected at step %s: %s %s" % (h["kind"], calls, (info or {}).get("failedStep"), json.dumps((info or {}).get("expected")), h.get("race", "")[:300])
 
 
@@ -50,6 +53,9 @@ def validate(ctx, hists):
 
 
 def rerun(ctx, h):
+    if h.get("note", "").startswith("nohook"):
+        from props import mcat
+        return mcat.rerun_nohook(ctx, h)
     d = ctx.sub("replay")
     i, o = os.path.join(d, "in.ndjson"), os.path.join(d, "out.ndjson")
     open(i, "w").write(json.dumps(h) + "\n")
